@@ -73,9 +73,15 @@ def r0(ctx, rep):
     Spec = collections.namedtuple('Spec', 'index subscript')
     maxi = 3
     it = Interp({}, where='lang/lex.py CoordsItem.next')
-    txt = astq.u(srt)
-    if 'self.Sorting(self.subscript, self.index)' not in txt:
-        raise AnalysisError('BiCoords.sorting no longer (subscript, index)')
+    # the sort order itself, folded: sorting() of (index, subscript) is (subscript, index)
+    from ..lexfold import coords_mirror
+    BC, _ = coords_mirror(m, 'BiCoords')
+    for i_, s_ in ((0, 0), (1, 0), (0, 2), (3, 1)):
+        got = tuple(BC(i_, s_).sorting())
+        ok = got == (s_, i_)
+        rep.instance(R0, ok=ok, nontrivial=('sorting', i_, s_))
+        if not ok:
+            rep.finding(R0, f'C06.R0/sorting/{(i_, s_)}', m.loc(LANG, srt), 'BiCoords.sorting', f'sorting() of (index={i_}, subscript={s_}) is {got}, expected (subscript, index)')
 
     def mk(spec):
         o = Obj('const', spec=spec)
